@@ -1,7 +1,7 @@
 """Fault-injecting rule plug-in (loaded with --add-plugin by the verification harness; not part of /repo).
 
 PV_FAULT = JSON object
-   {"cb": "start"|"token"|"line"|"complete"|"content",
+   {"cb": "start"|"token"|"line"|"complete"|"content",   "ctx": "fix" (optional: count only calls made with a fixing context),
     "file": substring of context.scan_file (token/line/complete/content) or null,
     "nth":  1-based index of the invocation of that callback for that file since the most recent
             starting_new_file (for "start": index of the starting_new_file call in the process)}
@@ -42,10 +42,12 @@ class PvFault(RulePlugin):
         s = os.environ.get("PV_FAULT")
         return json.loads(s) if s else None
 
-    def _hit(self, cb, scan_file):
+    def _hit(self, cb, scan_file, context=None):
         spec = self._spec()
         if not spec or spec.get("cb") != cb:
             return
+        if spec.get("ctx") == "fix" and not (context is not None and context.in_fix_mode):
+            return          # only invocations made with a fixing context count (i.e. the pass of this plug-in's own level)
         if spec.get("file") and spec["file"] not in (scan_file or ""):
             return
         k = (cb, scan_file)
@@ -66,10 +68,10 @@ class PvFault(RulePlugin):
             if token.is_text and "PLUGINFAIL" in token.token_text:
                 raise InjectedFault("injected fault on PLUGINFAIL")
             return
-        self._hit("token", context.scan_file)
+        self._hit("token", context.scan_file, context)
 
     def next_line(self, context, line):
-        self._hit("line", context.scan_file)
+        self._hit("line", context.scan_file, context)
 
     def completed_file(self, context):
-        self._hit("complete", context.scan_file)
+        self._hit("complete", context.scan_file, context)
